@@ -105,6 +105,8 @@ C_Shape(ev, oc) ==
      /\ S!Shape(hm, ev.out)
      /\ S!Dispatch(Enabled, ev.out) = oc.m
      /\ S!Checksalt(Enabled, ev.out) # S!SALT_INVALID
+\* C06: whatever a call returns as its result is NUL-terminated inside the output field
+C_Terminated(ev) == ev.ret = "out" => (ev.outk = "str" /\ Len(ev.out) < 384)
 C_CanonPrefix(ev, oc) ==
   (ObservedSuccess(ev) /\ oc.spec = "ok") =>
      /\ S!StartsWith(ev.out, oc.canon \o S!SepOf(oc.m))
@@ -172,6 +174,7 @@ JudgeHash(ev) ==
               \cup (IF C_NoLeak(ev) THEN {} ELSE {V("C09", "NoLeak")})
               \cup (IF C_Shape(ev, oc) THEN {} ELSE {V("C06", "Shape")})
               \cup (IF C_CanonPrefix(ev, oc) THEN {} ELSE {V("C06", "CanonPrefix")})
+              \cup (IF C_Terminated(ev) THEN {} ELSE {V("C06", "Terminated")})
               \cup (IF C_RoundTrip(ev) THEN {} ELSE {V("C01", "RoundTrip")})
               \cup (IF C_Distinct(ev) THEN {} ELSE {V("C03", "Distinct")})
               \cup (IF C_Handle(ev) THEN {} ELSE {V("C14", "Handle")})
